@@ -6,7 +6,7 @@ from harness import core, gen, common
 ID = 'C08'
 LEAN_TARGETS = ['Props.C08']
 # Tie A: equivalence theorems generated from the current source by translate/py2lean.py (checked on every run)
-TIE_A = ['sig_%s_documented' % m for m in ('g2c', 'g3c', 'gac', 'dpga', 'dg3c')] + ['conf_consts_eq', 'conf_up_eq', 'conf_homo_eq', 'conf_down_eq']
+TIE_A = ['sig_%s_documented' % m for m in ('g2c', 'g3c', 'gac', 'dpga', 'dg3c')] + ['conf_consts_eq', 'conf_up_eq', 'conf_homo_eq', 'conf_down_eq'] + ['meth_commutator_eq', 'meth_anticommutator_eq']
 OBLIGATIONS = [
     'C08.eo_is_null', 'C08.einf_is_null', 'C08.eo_dot_einf_eq', 'C08.E0_squares_to_one', 'C08.up_is_null', 'C08.up_dot_einf_eq',
     'C08.distance_identity', 'C08.homo_removes_scale', 'C08.down_up_id', 'C08.model_satisfies_relations',
